@@ -17,8 +17,9 @@ RULE = ("cases are histories `n0 ; op ; ...` over un/par/check/size/reset/clone/
         "(3) random histories n<=12 up to 200 ops (1.5k / 30k); (4) adversarial orders (binomial worst case on block ends, chains and stars in "
         "both argument orders, random, joined halves, with resets and clones) for every n in 2..40 and around powers of two up to 1024 "
         "(thorough: up to 10^5, then 10^6 and 2^20); (5) randmix (un/par/size/check interleaved on random elements) at every adversarial size; (6) a small out-of-range stream: the out-of-range op ends the history, its view/spec token is `ood`, everything before it is still compared. Compared: every return value; par through the "
-        "representative rule; the parent forest read from format!(\"{:?}\", dsu.clone()) -> depth(v) <= log2(size of its root) for every v, "
-        "and p/sz arrays against the model's. non-trivial = distinct in-domain history containing at least one union")
+        "representative rule; the parent forest recovered from format!(\"{:?}\", dsu.clone()) (any layout with a parent-like and a size-like column) -> "
+        "depth(v) <= log2(oracle class size) for every v; the private arrays are NOT compared (logged diagnostic only); `ss` histories "
+        "(n = 10^5, thorough 10^6) run in a child process with a 256 KiB stack, a crash there is the view STACK!. non-trivial = distinct in-domain history containing at least one union")
 ASSUMPTIONS = [
     "the Lean model of rlib_dsu is hand-written; it is tied to the code by running both on the same histories",
     "macro ops (chain/binom/star/rand/parall/...) are expanded to the same primitive calls by the harness and by the driver",
@@ -45,25 +46,47 @@ def nontrivial(case, rec):
 
 
 def extract(repo):
-    """The forest depth is read from the derived `Debug` of `DSU { p, sz }`.  If the struct no longer has exactly these two
-    fields (or no longer derives Debug/Clone) the harness cannot read the forest: that is a broken correspondence
-    (reported as such, `no-failing-input-found` unless the search finds one), never a property verdict."""
+    """Informational only: how the structure is laid out in the source.  The harness recovers the parent forest from the
+    derived `Debug` text of whatever layout it finds (two vectors, a vector of two-field structs, ...); a layout it cannot
+    read is NOT a broken correspondence - depth is then simply not observable without hooks (see `extra`)."""
     path = os.path.join(repo, "rlib", "dsu", "src", "lib.rs")
     try:
         src = open(path).read()
     except OSError as e:
-        return {}, [f"cannot read {path}: {e}"]
+        return {"dsu_source_readable": False, "note": str(e)}, []
     flat = re.sub(r"\s+", " ", src)
-    m = re.search(r"#\[derive\(([^)]*)\)\] pub struct DSU \{ p: Vec<usize>, sz: Vec<usize>,? \}", flat)
-    params = {"dsu_struct_anchor": bool(m)}
-    problems = []
-    if not m:
-        problems.append("`pub struct DSU { p: Vec<usize>, sz: Vec<usize> }` with a derive no longer matches rlib/dsu/src/lib.rs: "
-                        "the harness reads the parent forest from the derived Debug text of exactly these two fields")
+    m = re.search(r"#\[derive\(([^)]*)\)\] pub struct DSU \{([^}]*)\}", flat)
+    params = {"dsu_source_readable": True}
+    if m:
+        params["derives"] = sorted(d.strip() for d in m.group(1).split(","))
+        params["fields"] = [f.strip() for f in m.group(2).split(",") if f.strip()]
     else:
-        derives = {d.strip() for d in m.group(1).split(",")}
-        params["derives"] = sorted(derives)
-        for d in ("Clone", "Debug"):
-            if d not in derives:
-                problems.append(f"DSU no longer derives {d}")
-    return params, problems
+        params["note"] = "struct DSU with a derive attribute not found by the informational regex"
+    return params, []
+
+
+def extra(ctx):
+    """Logged diagnostic, never a verdict: can the forest be read from the Debug text, and do the private arrays coincide
+    with the model's?  (The compared raw column contains return values only; `dump` contributes the depth predicate.)"""
+    cov = ctx["coverage"]
+    probes = ["4 ; un 0 1 ; un 2 3 ; un 1 3 ; dumpdiag ; par 0 ; dumpdiag",
+              "6 ; un 0 1 ; un 2 3 ; un 4 5 ; un 1 3 ; un 3 5 ; dumpdiag ; check 0 5 ; dumpdiag ; reset 3 ; un 2 0 ; dumpdiag"]
+    diag = {"probes": []}
+    try:
+        for pipe in ctx["pipes"][:1]:
+            for r in pipe.eval_cases(probes, "forestdiag"):
+                diag["probes"].append({"case": r["case"], "impl": (r["impl"] or ("?", "?"))[0][:300], "model": (r["model"] or ("?", "?", "?"))[0][:300]})
+        impl_txt = " ".join(p["impl"] for p in diag["probes"])
+        diag["forest_readable_from_debug"] = "depth=unknown" not in impl_txt and bool(diag["probes"])
+        diag["private_arrays_equal_model"] = all(p["impl"] == p["model"] for p in diag["probes"]) and bool(diag["probes"])
+        if not diag["forest_readable_from_debug"]:
+            diag["NOTE"] = ("the parent forest could not be recovered from format!(\"{:?}\", dsu.clone()): the depth <= log2(size) predicate of `dump` "
+                            "is not observable for this layout (view stays depth-ok); the no-stack-exhaustion clause is still exercised by the "
+                            "`ss` histories (lookups at n = 10^5 / 10^6 in a child process with a 256 KiB stack)")
+        elif not diag["private_arrays_equal_model"]:
+            diag["NOTE"] = ("the private parent/size arrays differ from the model's (not compared: the property observes return values and the forest "
+                            "depth, which are compared on every case)")
+    except Exception as e:  # diagnostic only
+        diag["error"] = str(e)[:300]
+    cov["forest_diagnostic"] = diag
+    return []
